@@ -3,8 +3,8 @@ C13 — the division sites of struct_decl / union_decl (parse.c) on Model/Layout
 
 `align_to(n, 0)` and `bits / (sz * 8)` with `sz == 0` are SIGFPE in cc1; the model makes them the outcome
 `Fail.divByZero`.  This file characterises EXACTLY which member lists reach one of the three sites, and shows
-that type descriptions whose aggregates carry a positive `aligned(n)` (or none) and whose bit-fields have a scalar
-type never reach them (at any nesting depth).  Core Lean only.
+that member lists with positive alignments and bit-fields of non-zero size never reach them.  (Whole type descriptions:
+Lemmas/LayoutTotal.lean of C08, on the model that follows the parser's checks of fixes 04ba5b8 / fb20c9b.)  Core Lean only.
 -/
 import ChibiVerif.Model.Layout
 
@@ -213,171 +213,5 @@ theorem unionLayout_ok (packed : Bool) (a0 : Int) (ms : List Mem) (ha : 0 < a0) 
     have h1 := (unionLayout_error_iff packed a0 ms).1 h
     have := unionLoop_ge packed ms (STRUCT_INIT_SIZE : Nat) a0
     unfold unionAlign at h1; omega
-
-/-! ## whole type descriptions -/
-
-/-- the declared type of a bit-field is a scalar (C11 6.7.2.1p5 asks for `_Bool`, `int`, `unsigned`; chibicc accepts
-    every type and divides by its size) -/
-def isScalar : Ty → Bool
-  | .prim _ => true
-  | .enum => true
-  | .ptr => true
-  | _ => false
-
-mutual
-  /-- no aggregate of the description (at any depth) has `aligned(n)` with `n ≤ 0` or a bit-field whose declared type
-      is not a scalar -/
-  def tySafe : Ty → Bool
-    | .prim _ => true
-    | .enum => true
-    | .ptr => true
-    | .arr e _ => tySafe e
-    | .flex e => tySafe e
-    | .struct _ al ms => (match al with | some n => decide (0 < n) | none => true) && msSafe ms
-    | .union _ al ms => (match al with | some n => decide (0 < n) | none => true) && msSafe ms
-  def asSafe : Aligns → Bool
-    | .nil => true
-    | .const _ rest => asSafe rest
-    | .type t rest => tySafe t && asSafe rest
-  def msSafe : Members → Bool
-    | .nil => true
-    | .cons d as ty rest => asSafe as && tySafe ty && (d.bitWidth.isNone || isScalar ty) && msSafe rest
-end
-
-theorem prim_pos (t : TyName) : 0 < primSize t ∧ 0 < primAlign t := by
-  cases t <;> decide
-
-theorem scalar_size_pos (t : Ty) (h : isScalar t = true) (s _a : Int) (hs : t.sizeAlign = .ok (s, _a)) : 0 < s := by
-  cases t with
-  | prim t =>
-    simp only [Ty.sizeAlign, Except.ok.injEq, Prod.mk.injEq] at hs
-    rw [← hs.1]; exact (prim_pos t).1
-  | enum =>
-    simp only [Ty.sizeAlign, Except.ok.injEq, Prod.mk.injEq] at hs
-    rw [← hs.1]; decide
-  | ptr =>
-    simp only [Ty.sizeAlign, Except.ok.injEq, Prod.mk.injEq] at hs
-    rw [← hs.1]; decide
-  | arr _ _ => cases h
-  | flex _ => cases h
-  | struct _ _ _ => cases h
-  | union _ _ _ => cases h
-
-theorem getD_pos (al : Option Int) (h : (match al with | some n => decide (0 < n) | none => true) = true) :
-    0 < al.getD ((STRUCT_INIT_ALIGN : Nat) : Int) := by
-  cases al with
-  | none => decide
-  | some n => simpa using h
-
-theorem alignasCombine_nonneg (acc new : Int) (h : 0 ≤ acc) : 0 ≤ alignasCombine acc new := by
-  unfold alignasCombine; split <;> omega
-
-theorem memberAlign_pos (attr a : Int) (h1 : 0 ≤ attr) (h2 : 0 < a) : 0 < memberAlign attr a := by
-  unfold memberAlign; split <;> omega
-
-/-- what the member list of a safe description looks like to struct_decl/union_decl -/
-def MemsGood (l : List Mem) : Prop := ∀ m ∈ l, 0 < m.align ∧ (m.bitWidth.isSome = true → 0 < m.size)
-
-theorem memsGood_noSite (packed : Bool) (l : List Mem) (h : MemsGood l) : l.any (memDivSite packed) = false := by
-  rw [Bool.eq_false_iff]
-  intro hc
-  rw [List.any_eq_true] at hc
-  obtain ⟨m, hm, hs⟩ := hc
-  have := h m hm
-  unfold memDivSite at hs
-  cases hb : m.bitWidth with
-  | none =>
-    simp only [hb, Bool.and_eq_true, Bool.not_eq_true', decide_eq_true_eq] at hs
-    omega
-  | some w =>
-    simp only [hb, decide_eq_true_eq] at hs
-    have := this.2 (by simp [hb])
-    omega
-
-mutual
-  theorem ty_safe_ok : ∀ (t : Ty), tySafe t = true → ∃ s a, t.sizeAlign = .ok (s, a) ∧ 0 < a
-    | .prim t, _ => ⟨_, _, rfl, (prim_pos t).2⟩
-    | .enum, _ => ⟨_, _, rfl, by decide⟩
-    | .ptr, _ => ⟨_, _, rfl, by decide⟩
-    | .arr e n, h => by
-      simp only [tySafe] at h
-      obtain ⟨s, a, hs, ha⟩ := ty_safe_ok e h
-      exact ⟨s * n, a, by simp [Ty.sizeAlign, hs, bind, Except.bind, pure, Except.pure], ha⟩
-    | .flex e, h => by
-      simp only [tySafe] at h
-      obtain ⟨s, a, hs, ha⟩ := ty_safe_ok e h
-      exact ⟨s * 0, a, by simp [Ty.sizeAlign, hs, bind, Except.bind, pure, Except.pure], ha⟩
-    | .struct p al ms, h => by
-      simp only [tySafe, Bool.and_eq_true] at h
-      obtain ⟨l, hl, hg⟩ := ms_safe_ok ms h.2
-      obtain ⟨lay, hlay, hpos⟩ := structLayout_ok p (al.getD ((STRUCT_INIT_ALIGN : Nat) : Int)) l (getD_pos al h.1)
-        (memsGood_noSite p l hg)
-      exact ⟨lay.size, lay.align, by simp [Ty.sizeAlign, hl, hlay, bind, Except.bind, pure, Except.pure], hpos⟩
-    | .union p al ms, h => by
-      simp only [tySafe, Bool.and_eq_true] at h
-      obtain ⟨l, hl, _⟩ := ms_safe_ok ms h.2
-      obtain ⟨lay, hlay, hpos⟩ := unionLayout_ok p (al.getD ((STRUCT_INIT_ALIGN : Nat) : Int)) l (getD_pos al h.1)
-      exact ⟨lay.size, lay.align, by simp [Ty.sizeAlign, hl, hlay, bind, Except.bind, pure, Except.pure], hpos⟩
-  theorem as_safe_ok : ∀ (as : Aligns), asSafe as = true → ∀ acc : Int, 0 ≤ acc → ∃ r, as.eval acc = .ok r ∧ 0 ≤ r
-    | .nil, _, acc, hacc => ⟨acc, rfl, hacc⟩
-    | .const n rest, h, acc, hacc => by
-      simp only [asSafe] at h
-      obtain ⟨r, hr, hr0⟩ := as_safe_ok rest h _ (alignasCombine_nonneg acc (alignasOfConst n) hacc)
-      exact ⟨r, by simp [Aligns.eval, hr], hr0⟩
-    | .type t rest, h, acc, hacc => by
-      simp only [asSafe, Bool.and_eq_true] at h
-      obtain ⟨s, a, hs, _⟩ := ty_safe_ok t h.1
-      obtain ⟨r, hr, hr0⟩ := as_safe_ok rest h.2 _ (alignasCombine_nonneg acc (alignasOfType s a) hacc)
-      exact ⟨r, by simp [Aligns.eval, hs, bind, Except.bind, hr], hr0⟩
-  theorem ms_safe_ok : ∀ (ms : Members), msSafe ms = true → ∃ l, ms.toMems = .ok l ∧ MemsGood l
-    | .nil, _ => ⟨[], rfl, by intro m hm; cases hm⟩
-    | .cons d as ty rest, h => by
-      simp only [msSafe, Bool.and_eq_true, Bool.or_eq_true] at h
-      obtain ⟨⟨⟨has, hty⟩, hbf⟩, hrest⟩ := h
-      obtain ⟨r, hr, hr0⟩ := as_safe_ok as has 0 (Int.le_refl 0)
-      obtain ⟨s, a, hs, ha⟩ := ty_safe_ok ty hty
-      obtain ⟨tl, htl, hg⟩ := ms_safe_ok rest hrest
-      refine ⟨{ size := s, align := memberAlign r a, bitWidth := d.bitWidth, named := d.named } :: tl,
-        by simp [Members.toMems, hr, hs, htl, bind, Except.bind, pure, Except.pure], ?_⟩
-      intro m hm
-      rcases List.mem_cons.1 hm with rfl | hm
-      · refine ⟨memberAlign_pos r a hr0 ha, ?_⟩
-        intro hb
-        simp only at hb
-        rcases hbf with hn | hsc
-        · rw [Option.isNone_iff_eq_none] at hn; rw [hn] at hb; cases hb
-        · exact scalar_size_pos ty hsc s a hs
-      · exact hg m hm
-end
-
-/-- a safe description has a layout: no SIGFPE site is reached at any depth -/
-theorem layout_safe_ok (t : Ty) (h : tySafe t = true) : ∃ l, t.layout = .ok l := by
-  cases t with
-  | struct p al ms =>
-    simp only [tySafe, Bool.and_eq_true] at h
-    obtain ⟨l, hl, hg⟩ := ms_safe_ok ms h.2
-    obtain ⟨lay, hlay, _⟩ := structLayout_ok p (al.getD ((STRUCT_INIT_ALIGN : Nat) : Int)) l (getD_pos al h.1)
-      (memsGood_noSite p l hg)
-    exact ⟨lay, by simp [Ty.layout, hl, hlay, bind, Except.bind]⟩
-  | union p al ms =>
-    simp only [tySafe, Bool.and_eq_true] at h
-    obtain ⟨l, hl, _⟩ := ms_safe_ok ms h.2
-    obtain ⟨lay, hlay, _⟩ := unionLayout_ok p (al.getD ((STRUCT_INIT_ALIGN : Nat) : Int)) l (getD_pos al h.1)
-    exact ⟨lay, by simp [Ty.layout, hl, hlay, bind, Except.bind]⟩
-  | prim t =>
-    obtain ⟨s, a, hs, _⟩ := ty_safe_ok (.prim t) h
-    exact ⟨{ size := s, align := a, placed := [] }, by simp [Ty.layout, hs, bind, Except.bind, pure, Except.pure]⟩
-  | enum =>
-    obtain ⟨s, a, hs, _⟩ := ty_safe_ok .enum h
-    exact ⟨{ size := s, align := a, placed := [] }, by simp [Ty.layout, hs, bind, Except.bind, pure, Except.pure]⟩
-  | ptr =>
-    obtain ⟨s, a, hs, _⟩ := ty_safe_ok .ptr h
-    exact ⟨{ size := s, align := a, placed := [] }, by simp [Ty.layout, hs, bind, Except.bind, pure, Except.pure]⟩
-  | arr e n =>
-    obtain ⟨s, a, hs, _⟩ := ty_safe_ok (.arr e n) h
-    exact ⟨{ size := s, align := a, placed := [] }, by simp [Ty.layout, hs, bind, Except.bind, pure, Except.pure]⟩
-  | flex e =>
-    obtain ⟨s, a, hs, _⟩ := ty_safe_ok (.flex e) h
-    exact ⟨{ size := s, align := a, placed := [] }, by simp [Ty.layout, hs, bind, Except.bind, pure, Except.pure]⟩
 
 end ChibiVerif.C13Layout
